@@ -397,6 +397,7 @@ type env struct {
 	chain   *blockchain.BlockChain
 	pool    *mempool.TxPool
 	note    *stubNotifier
+	gen     int
 	onEvent func(kind byte) // called after netsync's handler for every connect / disconnect notification
 	lastTs  int64           // relative timestamp of the newest block built
 }
@@ -438,6 +439,18 @@ func newEnv(pol policy, maturity int) (*env, error) {
 		e.close()
 		return nil, err
 	}
+	if err := e.makePool(pol); err != nil {
+		e.close()
+		return nil, err
+	}
+	return e, nil
+}
+
+// makePool creates a TxPool with the given policy on the environment's chain and wires it to the chain
+// through netsync's real handler.  Called again by the restart op: a new session with another policy on
+// the same chain (the previous pool and its handler stay subscribed but are no longer observed).
+func (e *env) makePool(pol policy) error {
+	var err error
 	limit := 0.0
 	if pol.freeRelay {
 		limit = 1e12
@@ -471,11 +484,16 @@ func newEnv(pol policy, maturity int) (*env, error) {
 		DisableCheckpoints: true, MaxPeers: 8,
 	})
 	if err != nil {
-		e.close()
-		return nil, err
+		return err
 	}
-	// ours runs after netsync's for every notification
+	// our observer runs after the handler just subscribed, for every notification; observers of earlier
+	// sessions fall silent
+	e.gen++
+	gen := e.gen
 	e.chain.Subscribe(func(n *blockchain.Notification) {
+		if gen != e.gen || e.onEvent == nil {
+			return
+		}
 		switch n.Type {
 		case blockchain.NTBlockConnected:
 			e.onEvent('C')
@@ -483,7 +501,7 @@ func newEnv(pol policy, maturity int) (*env, error) {
 			e.onEvent('U')
 		}
 	})
-	return e, nil
+	return nil
 }
 
 func (e *env) close() {
